@@ -47,6 +47,10 @@ type Knobs struct {
 	// through to the real pool (consequences become visible to the other oracles).
 	PassDoubleRelease bool `json:"pass_double_release,omitempty"`
 	PoolQuarantine    int  `json:"pool_quarantine,omitempty"`
+	// OldTLSResume: crypto/tls resumes a session without checking its chain
+	// against the current RootCAs, as the library did up to go1.23 (the
+	// toolchain the repository builds with by default).
+	OldTLSResume bool `json:"old_tls_resume,omitempty"`
 }
 
 // ---- router family ----
@@ -109,6 +113,14 @@ type UpstreamSpec struct {
 	UseCA bool   `json:"use_ca,omitempty"`
 	Skip  bool   `json:"skip_verify,omitempty"`
 	HTTP1 bool   `json:"http1,omitempty"` // server does not offer h2
+	// OtherCA: tls.ca names a file holding the PKI's other CA (the server's
+	// certificate does not chain to it).
+	OtherCA bool `json:"other_ca,omitempty"`
+	// MustFail: with this configuration the server cannot be authenticated;
+	// no exchange through this upstream may succeed (C17 arm pair).  An
+	// upstream without Host has no server of its own: its URL leads to the
+	// server of another upstream.
+	MustFail bool `json:"must_fail,omitempty"`
 	// QuicMaxStreams: the DoQ server's limit of concurrently open streams per
 	// connection (0 = quic-go's default of 100).
 	QuicMaxStreams int `json:"quic_max_streams,omitempty"`
